@@ -19,6 +19,13 @@ Proof.
     cbn [exec]. rewrite (lv_sound env c v Hc). rewrite Ht. reflexivity.
 Qed.
 
+Theorem dead_if_src_sound : forall env is_elif s ss, dead_if_src is_elif s = Some ss ->
+  forall fuel rest, exec env (S fuel) (s :: rest) = exec env fuel (ss ++ rest).
+Proof.
+  intros env is_elif s ss H. apply dead_if_sound.
+  destruct s; cbn [dead_if_src] in H; try exact H. destruct is_elif; [discriminate | exact H].
+Qed.
+
 Theorem unreachable_if_sound : forall env s ss, unreachable_if s = Some ss ->
   forall fuel rest, exec env (S fuel) (s :: rest) = exec env (S fuel) (ss ++ rest) \/
                     exec env (S fuel) (s :: rest) = exec env fuel (ss ++ rest).
